@@ -701,3 +701,5 @@ func c18Compare(o *vlib.Outcome, desc string, r c18Req, want c18Result, gotOK bo
 func TestC18(t *testing.T) {
 	vlib.Check(t, "C18", genC18, runC18)
 }
+
+func FuzzC18(f *testing.F) { vlib.Fuzz(f, "C18", genC18, runC18) }
